@@ -101,9 +101,9 @@ def _run_case(w, req, run_timeout):
     results = [None] * len(runs)
     pending = list(range(len(runs)))          # original indices still to do
     done = {}
-    first = True
-    while pending or first:
-        first = False
+    abnormal = False
+    got_done = False
+    while pending or not got_done:
         sub = dict(req)
         sub["runs"] = [runs[i] for i in pending]
         mapping = list(pending)
@@ -129,6 +129,7 @@ def _run_case(w, req, run_timeout):
                 else:
                     results[orig] = {"died": signame(msg[1]), "partial": evs.get(current, [])}
                 w.start()
+                abnormal = True
                 pending = [i for i in pending if results[i] is None]
                 break
             if "bye" in msg:               # worker recycles itself; resend to a fresh one
@@ -143,6 +144,9 @@ def _run_case(w, req, run_timeout):
                 continue
             if "done" in msg:
                 finished_ok = True
+                got_done = True
+                if "agree" in done and not done["agree"]:
+                    msg["agree"] = 0
                 done = msg
                 break
             if "run" in msg:
@@ -167,6 +171,8 @@ def _run_case(w, req, run_timeout):
     for r in results:
         if r is not None and "same" in r and "log" not in r:
             r["log"] = results[r["same"]]["log"]
+    if abnormal and "agree" in done:
+        done["agree"] = 0
     return results, done
 
 
